@@ -387,6 +387,98 @@ MANIFEST_TEXT = {
     },
 }
 
+ASAN_ENV = {"ASAN_OPTIONS": "abort_on_error=1:halt_on_error=1:detect_leaks=0:allocator_may_return_null=1"}
+
+PROPS.update({
+    "C19": {
+        "level": "exploration",
+        "design_ref": "DESIGN.md section 5, C19",
+        "rule": "adversarial families (a^k b with k up to 2000 against a^n; nested suffix chains; Fibonacci strings; "
+                "case-insensitive tries; long shared prefix + rare byte so that prefilter and automaton alternate; "
+                "periodic (ab)^k c; structured random) with haystacks up to 20 KB (quick) / 64 KiB (thorough) x 3 match "
+                "kinds x anchored/unanchored x random configuration (all automaton kinds, prefilter on/off). The hook "
+                "counters are reset around each call: a fresh try_find (normal and earliest) must take <= span length "
+                "transitions, failure traversals <= transitions for the NFAs and 0 for a DFA; each next() of find_iter "
+                "is measured against the remaining span (2x, because an empty match at the previous end is retried one "
+                "byte later); overlapping stepping and stream iteration are measured cumulatively over one "
+                "OverlappingState / one stream iterator. The hook's work limit (4*len+64) turns a non-terminating "
+                "failure loop into a panic that is reported as a violation. Non-trivial: a call that took at least one "
+                "transition.",
+        "assumptions": COMMON_ASSUMPTIONS[1:] + [
+            "counters are incremented at the three next_state call sites of the generic search loops and in the "
+            "failure loops of both NFAs (hook commit); prefilter scanning is not counted as automaton work",
+            "wall-clock linearity is not measured, only logical step counts"],
+        "stages": {"quick": NATIVE, "thorough": NATIVE},
+        "floors": {"quick": {"evaluations": 50_000, "distinct_nontrivial": 20_000, "transitions_observed": 50_000_000,
+                             "failures_observed": 20_000_000, "calls_with_heavy_failure_traffic": 3000,
+                             "stream_iterators_measured": 1000, "family_a^k_b": 150, "family_fibonacci": 150,
+                             "family_nested_suffixes": 150},
+                   "thorough": {"evaluations": 1_000_000}},
+        "timeout": T_DEFAULT,
+    },
+    "C20": {
+        "level": "exploration",
+        "design_ref": "DESIGN.md section 5, C20",
+        "rule": "collection shapes (no patterns; only empty patterns; duplicates; all 256 single bytes; 256 children "
+                "below one node; 99-130 patterns; thousands of random patterns; 200-600 byte patterns; all byte values "
+                "inside longer patterns; empty pattern mixed in; structured random) x 10 random builder configurations "
+                "each (7 ways of building x match kind x start kind x case folding x prefilter x dense_depth "
+                "0/1/2/5/1000 x byte classes). Each build runs under catch_unwind and must return Ok; then "
+                "patterns_len, min/max_pattern_len (non-empty collections), match_kind, start_kind, an explicitly "
+                "requested kind, Automaton::pattern_len(i) for every i (low-level types) are compared with the input, "
+                "and for up to 40 patterns per collection that contain no other pattern the haystack "
+                "filler+pattern+filler must yield a match with that pattern's index. evaluations = builds + id probes. "
+                "Non-trivial: collections with at least 2 patterns.",
+        "assumptions": COMMON_ASSUMPTIONS[1:] + ["the documented size limits (2^31 states etc.) are not approached"],
+        "stages": {"quick": NATIVE, "thorough": NATIVE},
+        "floors": {"quick": {"evaluations": 40_000, "distinct_nontrivial": 8000, "pattern_id_probes": 30_000,
+                             "built_top-auto": 1000, "built_low-dfa": 1000, "built_low-cnfa": 1000,
+                             "shape_thousands_of_random_patterns": 200, "shape_no_patterns": 500},
+                   "thorough": {"evaluations": 1_000_000}},
+        "timeout": T_DEFAULT,
+    },
+    "C15": {
+        "level": "exploration",
+        "design_ref": "DESIGN.md section 5, C15",
+        "rule": "one case generator, three observers. Cases: packed searchers (Rabin-Karp, slim-128, slim-256, fat-256, "
+                "default) x mask length 1-4 x both match kinds, and automata of every kind with every prefilter variant "
+                "(pattern lists aimed at Memmem/StartBytes1-3/RareBytes1-3/Packed), on haystacks of every length 0..300 "
+                "(plus up to 4000 for prefilters) with vector-shaped content, decoys, arbitrary and invalid-UTF-8 bytes, "
+                "x spans. Calls: find_in/find_iter (packed); try_find, earliest, find_iter, overlapping stepping, "
+                "is_match, replace_all_bytes, replace_all (automata). Observers: (1) 'guard': haystack placed flush "
+                "against a PROT_NONE page on the right and on the left in a child process (a stray read = SIGSEGV, "
+                "reported with the case the child had announced); (2) 'miri': exact-size boxed haystacks under the Miri "
+                "interpreter built with +ssse3,+avx2 so that all Teddy variants run; (3) 'asan': exact-size heap "
+                "haystacks in an AddressSanitizer build. Every stage also asserts start<=end<=len, pattern<patterns_len, "
+                "match inside span, and absence of panics. One evaluation = one (searcher, placed haystack, span) on "
+                "which all calls completed under the observer; all are distinct by construction.",
+        "assumptions": COMMON_ASSUMPTIONS[1:] + [
+            "guard pages and ASan red zones miss reads that land inside another live mapping/object; Miri does not but runs fewer cases",
+            "Miri runs the Teddy code only because the harness is built with -Ctarget-feature=+ssse3,+avx2"],
+        "stages": {
+            "quick": [
+                {"kind": "native", "name": "guard", "stage": "guard", "crash_is_violation": True},
+                {"kind": "asan", "name": "asan", "stage": "asan", "crash_is_violation": True, "env": ASAN_ENV, "tier": "quick"},
+                {"kind": "miri", "name": "miri", "stage": "miri", "tier": "tiny", "shards": 16},
+            ],
+            "thorough": [
+                {"kind": "native", "name": "guard", "stage": "guard", "crash_is_violation": True},
+                {"kind": "asan", "name": "asan", "stage": "asan", "crash_is_violation": True, "env": ASAN_ENV, "tier": "thorough"},
+                {"kind": "miri", "name": "miri", "stage": "miri", "tier": "tiny", "shards": 64},
+            ],
+        },
+        "floors": {"quick": {"evaluations": 3_000_000, "guard_right_SlimSSSE3_m1": 30_000, "guard_left_SlimSSSE3_m1": 30_000,
+                             "guard_right_FatAVX2_m4": 100_000, "guard_right_SlimAVX2_m2": 50_000,
+                             "guard_right_prefilter_Packed": 20_000, "guard_right_prefilter_RareBytesOne": 15_000,
+                             "guard_right_prefilter_Memmem": 8000,
+                             "miri_box_SlimSSSE3_m1": 10, "miri_box_SlimAVX2_m2": 10, "miri_box_FatAVX2_m3": 10,
+                             "miri_box_SlimSSSE3_m4": 10, "miri_box_RabinKarp_m1": 10, "miri_box_prefilter_any": 20,
+                             "exact_box_SlimSSSE3_m2": 5000, "exact_box_FatAVX2_m3": 5000},
+                   "thorough": {"evaluations": 50_000_000}},
+        "timeout": {"quick": 1500, "thorough": 8 * 3600},
+    },
+})
+
 _DIFF_NOTE = ("Trusted base: the differential/metamorphic relation itself, the generators, rustc/std. Exploration "
               "only: holds on the executions observed (counts in the evidence file).")
 
@@ -472,5 +564,32 @@ MANIFEST_TEXT.update({
                       "UTF-8 validity and absence of panics checked.",
         "level_note": _DIFF_NOTE,
         "technique": "runtime monitoring: differential against monitor-side splice, closure event log",
+    },
+})
+
+MANIFEST_TEXT.update({
+    "C19": {
+        "level_text": "Counter hooks at the automaton-transition and failure-link sites are read around every monitored "
+                      "call on adversarial pattern families; the monitor enforces the per-call (or per-state-object, for "
+                      "resumable searches) inequalities of the property and converts non-termination into an observable "
+                      "panic through a work limit.",
+        "level_note": "Trusted base: placement of the counter hooks (hook commit in /repo), the adversarial generators. "
+                      "Logical steps only; no wall-clock verdicts.",
+        "technique": "runtime monitoring: hook counters + work-limit watchdog on adversarial workloads",
+    },
+    "C20": {
+        "level_text": "Every build of shape-diverse collections under random option combinations runs under catch_unwind "
+                      "and must succeed; all metadata accessors and pattern identifiers are compared with the input.",
+        "level_note": "Trusted base: generators, catch_unwind. Size limits near 2^31 are out of reach of execution.",
+        "technique": "runtime monitoring: build-and-inspect over shape-diverse collections",
+    },
+    "C15": {
+        "level_text": "Memory-safety observers on executions of the real SIMD code: guard pages on both sides of the "
+                      "haystack at native speed for every length 0..300 and every packed/prefilter variant, the Miri "
+                      "interpreter (precise UB and bounds detection) on a reduced workload, and an AddressSanitizer "
+                      "build; plus match-bounds invariants and panic detection everywhere.",
+        "level_note": "A clean run is not a proof of memory safety: only reached code, only the observed inputs; guard "
+                      "pages/red zones miss non-adjacent stray reads (Miri covers those on its smaller workload).",
+        "technique": "sanitizers: guard pages (mmap/mprotect) + Miri + ASan, with crash-time case reporting",
     },
 })
